@@ -5,11 +5,11 @@ import prelude, gen, clientsim, refdc, toycrypto, refimpl
 from check import canon_exc, hx
 
 MANIFEST = {
-    "text": "Lean theorems for an arbitrary Crypto satisfying the functional laws (unwrap∘wrap, decrypt∘encrypt): decrypt_encrypt (_decrypt_blob ∘ _encrypt_blob = id whenever the decrypting side derives the same KEK — any plaintext, so every length is an instance), protect_unprotect_nonce and protect_unprotect_dh (composition with the C03 agreement theorems, hence with C02), gcm_parameters (the nonce is carried by SEQUENCE{OCTET STRING, INTEGER 16} and read back unchanged); time-index kernels regenerated from source; the four public functions (sync and async, on a real event loop) are tied to the model by exact byte-for-byte correspondence of blobs, DC requests and cache contents under the toy crypto, and a real-crypto round-trip oracle runs over plaintext lengths, SID shapes, 4 hashes × {nonce, DH, P-256, P-384}, clock boundaries and both layouts",
+    "text": "Lean theorems for an arbitrary Crypto satisfying the functional laws (unwrap∘wrap, decrypt∘encrypt): decrypt_encrypt (_decrypt_blob ∘ _encrypt_blob = id whenever the decrypting side derives the same KEK — any plaintext, so every length is an instance), protect_unprotect_nonce and protect_unprotect_dh (composition with the C03 agreement theorems, hence with C02), gcm_parameters (the nonce is carried by SEQUENCE{OCTET STRING, INTEGER 16} and read back unchanged); time-index kernels regenerated from source; the four public functions (sync and async, on a real event loop) are tied to the model by exact byte-for-byte correspondence of blobs, DC requests and cache contents under the toy crypto, and a real-crypto round-trip oracle runs over plaintext lengths, SID shapes, 4 hashes × {nonce, DH, P-256, P-384}, clock boundaries and both layouts; protect_then_unprotect_same_cache: at the level of the public functions' model, for every plaintext, SID string, clock value, draws and cache state, a protect answered from the cache followed by unprotect on the same cache returns the plaintext without a DC (composition of the cache machine, the chain walk, KEK agreement and — as a named premise — C06.unpack_pack)",
     "note": "Trusted: Lean kernel; hand-written model of the client glue (differential tie); the functional laws of AES-KW / AES-GCM / ECDH are premises exercised against the real `cryptography` by the oracle; the whole-pipeline theorem through the cache is the composition stated in DESIGN.md (C06 unpack∘pack + C10 transparent + these)",
     "technique": "Lean 4 proof (composition of round-trip and agreement theorems) + kernel extraction + byte-exact correspondence + real-crypto round-trip oracle",
 }
-THEOREMS = ["DpapiNg.C01.decrypt_encrypt", "DpapiNg.C01.protect_unprotect_nonce", "DpapiNg.C01.protect_unprotect_dh", "DpapiNg.C01.gcm_parameters"]
+THEOREMS = ["DpapiNg.C01.decrypt_encrypt", "DpapiNg.C01.protect_unprotect_nonce", "DpapiNg.C01.protect_unprotect_dh", "DpapiNg.C01.gcm_parameters", "DpapiNg.C01.protect_then_unprotect_same_cache"]
 RULE = ("plaintext lengths {0,1,15,16,17,31,32,33,4095,4096 (+65535,65536,70001 thorough)} × SIDs with n in 1..15 sub-authorities and values {0,1,2^31,2^32-1} × "
         "4 hashes × {nonce, DH, ECDH_P256, ECDH_P384} × clock values on/around L2/L1/L0 boundaries × {in-envelope, trailing} × {sync, async}; "
         "toy-crypto cases are compared byte for byte with the model, real-crypto cases are round-trip checked; distinct by op line")
